@@ -42,6 +42,8 @@ type Outcome struct {
 	Nontrivial bool
 	SimTime    time.Duration
 	Steps      int
+	Evals      int
+	Cases      []uint64
 	Trace      []string
 	Sample     []string
 }
@@ -109,7 +111,7 @@ func (c *Check) Exec(t *testing.T, tape *Tape, trace bool) (out *Outcome) {
 		Viol: e.viol, Infra: e.infra, Hash: e.hash,
 		Tape:   append([]uint32(nil), tape.Recorded()...),
 		Faults: e.Faults, Probes: e.Probes, Nontrivial: e.nontrivial,
-		SimTime: e.SimTime, Steps: e.Steps, Trace: e.trace, Sample: e.sample,
+		SimTime: e.SimTime, Steps: e.Steps, Evals: e.Evals, Cases: e.cases, Trace: e.trace, Sample: e.sample,
 	}
 }
 
@@ -148,6 +150,7 @@ type ShardResult struct {
 	Shard        string            `json:"shard"`
 	NCPU         int               `json:"ncpu"`
 	Runs         int               `json:"runs"`
+	Evals        int               `json:"evaluations"`
 	Nontrivial   int               `json:"nontrivial"`
 	Hashes       []string          `json:"nontrivial_hashes"`
 	HashesCapped bool              `json:"hashes_capped"`
@@ -265,6 +268,11 @@ func Main(t *testing.T, c *Check) {
 		}
 		out := c.Exec(t, NewTape(runSeed), false)
 		res.Runs++
+		if out.Evals > 0 {
+			res.Evals += out.Evals
+		} else {
+			res.Evals++
+		}
 		res.Steps += out.Steps
 		simTotal += out.SimTime
 		for k, v := range out.Faults {
@@ -276,10 +284,17 @@ func Main(t *testing.T, c *Check) {
 		tapeLens = append(tapeLens, len(out.Tape))
 		if out.Nontrivial {
 			res.Nontrivial++
-			if len(hashes) < maxHashes {
-				hashes[out.Hash] = struct{}{}
-			} else {
-				res.HashesCapped = true
+			hs := out.Cases
+			if len(hs) == 0 {
+				hs = []uint64{out.Hash}
+			}
+			for _, h := range hs {
+				if len(hashes) < maxHashes {
+					hashes[h] = struct{}{}
+				} else {
+					res.HashesCapped = true
+					break
+				}
 			}
 		}
 		if len(res.Samples) < 3 && len(out.Sample) > 0 && (out.Nontrivial || i == shardK) {
